@@ -32,6 +32,12 @@ _current: "Scheduler | None" = None
 _installed = False
 
 
+
+def _q(t):
+    """deadlines are quantised to the microsecond: waits of 0.1 s and sleeps of 0.125 s that should end at the same
+    virtual instant do (binary floating point would keep them apart by 1e-13 and hide every race between them)"""
+    return round(t, 6)
+
 class Deadlock(Exception):
     pass
 
@@ -381,7 +387,7 @@ class DetLock:
         if self.noyield and self._owner is None:
             self._owner = me
             return True
-        deadline = None if timeout is None or timeout < 0 else s.clock + timeout
+        deadline = None if timeout is None or timeout < 0 else _q(s.clock + timeout)
         s.block("lock", self, deadline, f"acquire {s.role(self)}")
         if self._owner is not None:
             return False  # timed out
@@ -438,7 +444,7 @@ class DetRLock:
                 self._owner, self._count = me, 1
                 return True
             return False
-        deadline = None if timeout is None or timeout < 0 else s.clock + timeout
+        deadline = None if timeout is None or timeout < 0 else _q(s.clock + timeout)
         s.block("lock", self, deadline, f"acquire {s.role(self)}")
         if self._owner is not None and self._owner is not me:
             return False
@@ -495,7 +501,7 @@ class DetCondition:
         st = self._lock._release_save()
         me.notified = False
         self._waiters.append(me)
-        deadline = None if timeout is None else s.clock + max(timeout, 0)
+        deadline = None if timeout is None else _q(s.clock + max(timeout, 0))
         try:
             s.block("cond", self, deadline, f"wait {s.role(self)}")
             got = me.notified
@@ -514,7 +520,7 @@ class DetCondition:
             wt = None
             if timeout is not None:
                 if endtime is None:
-                    endtime = s.clock + timeout
+                    endtime = _q(s.clock + timeout)
                 wt = endtime - s.clock
                 if wt <= 0:
                     break
@@ -558,7 +564,7 @@ class DetEvent:
         me = s.me()
         if me is None or s.dead:
             return self._flag
-        deadline = None if timeout is None else s.clock + max(timeout, 0)
+        deadline = None if timeout is None else _q(s.clock + max(timeout, 0))
         s.block("event", self, deadline, f"eventwait {s.role(self)}")
         return self._flag
 
@@ -577,7 +583,7 @@ class DetSemaphore:
                 self._value -= 1
                 return True
             return False
-        deadline = None if timeout is None else s.clock + timeout
+        deadline = None if timeout is None else _q(s.clock + timeout)
         s.block("sem", self, deadline, f"semacquire {s.role(self)}")
         if self._value > 0:
             self._value -= 1
@@ -681,7 +687,7 @@ def _thread_join(self, timeout=None):
         return _real["join"](self, timeout)
     if ts is s.me():
         raise RuntimeError("cannot join current thread")
-    deadline = None if timeout is None else s.clock + max(timeout, 0)
+    deadline = None if timeout is None else _q(s.clock + max(timeout, 0))
     s.block("join", ts, deadline, f"join {ts.name}")
 
 
@@ -701,7 +707,7 @@ def _vsleep(d):
     s = cur()
     if not s:
         return _real["sleep"](d)
-    s.block("sleep", None, s.clock + max(d, 0), f"sleep {d:g}")
+    s.block("sleep", None, _q(s.clock + max(d, 0)), f"sleep {d:g}")
 
 
 def install():
